@@ -122,6 +122,7 @@ inductive Ev
   | open6 (cid : Nat)
   | resolved (cid : Nat) (idx : Nat) (infos : List (Bool × Bytes))          -- getaddrinfo result: (is AF_INET6, ip)
   | outside (cid : Nat) (v6 : Bool) (host : Bytes) (port : Nat) (payload : Bytes)
+  | join (srcIp : Bytes) (srcPort : Nat) (cid : Nat)                         -- join_circuit for a CREATE that came from (srcIp, srcPort)
   deriving Repr
 
 /-! ## The gate -/
@@ -220,6 +221,7 @@ def sockStep (flags : List Nat) (pfx : Bytes) (s : Sock) : Ev → Sock × List O
     else recvOutside flags pfx s payload ⟨if v6 then .v6 else .v4, host, port⟩
   | .data _ _ _ _ _ => (s, [])        -- DATA cells go through `exitData` below
   | .setFlags _ => (s, [])
+  | .join _ _ _ => (s, [])            -- socket creation is a table operation (`joinSock`)
 
 /-! ## TunnelCommunity -/
 
@@ -324,6 +326,12 @@ def interpOnData (e : DEnv) : Prog → St → St × List Out
     (r'.1, r.2 ++ r'.2)
   | .ite c t el, st => if condOnData e st c then interpOnData e t st else interpOnData e el st
 
+/-- `TunnelCommunity.join_circuit`: `self.exit_sockets[circuit_id] = TunnelExitSocket(circuit_id, Hop(Peer(node_public_key,
+    previous_node_address), keys), self)` — the new socket's hop address is the address the CREATE came from; the socket
+    is closed (not enabled, no transports, nothing queued).  An entry under the same id is replaced. -/
+def joinSock (socks : List Sock) (ip : Bytes) (port : Nat) (cid : Nat) : List Sock :=
+  socks.filter (fun s => s.cid != cid) ++ [{ cid := cid, hopIp := ip, hopPort := port }]
+
 def step (st : St) (ev : Ev) : St × List Out :=
   match ev with
   | .setFlags fl => ({ st with flags := fl }, [])
@@ -332,6 +340,7 @@ def step (st : St) (ev : Ev) : St × List Out :=
   | .open6 cid => viaSock st cid ev
   | .resolved cid _ _ => viaSock st cid ev
   | .outside cid _ _ _ _ => viaSock st cid ev
+  | .join ip port cid => ({ st with socks := joinSock st.socks ip port cid }, [])
 
 /-- run a history; outputs are tagged with the peer_flags that were configured when they were produced -/
 def run : St → List Ev → St × List (List Nat × Out)
